@@ -20,10 +20,35 @@ use wow_mpq::compression::flags as cf;
 use wow_mpq::crypto::{decrypt_block, encrypt_block, hash_string, hash_type, het_hash};
 use wow_mpq::{Archive, ArchiveBuilder, AttributesOption, FormatVersion, ListfileOption};
 
+/// Register the ADPCM code-byte stream of one compressed unit `[method_pos, end)` as a token site: method byte
+/// 0x40 (mono) / 0x80 (stereo), 2 header bytes (zero, shift), one initial sample per channel, then code bytes.
+/// 0x81 raises the step index by 8 from the initial 0x2C: the 6th consecutive marker saturates it at 0x58;
+/// 0x80 lowers it by 1 (0x2C markers reach 0).
+fn adpcm_site(s: &mut Seed, name: String, method_pos: usize, end: usize) {
+    let ch = match s.bytes[method_pos] {
+        0x40 => 1,
+        0x80 => 2,
+        _ => return,
+    };
+    let start = method_pos + 1 + 2 + 2 * ch;
+    if start + 16 > end || end > s.bytes.len() {
+        return;
+    }
+    s.tokens.push(crate::seed::TokenSite { name, start, end, markers: vec![(0x81, 6), (0x80, 0x2C)], ordinary: vec![0x00, 0x7F, 0x3F] });
+}
+
 pub fn seed_names(thorough: bool) -> Vec<String> {
-    let mut v = vec!["v1-zlib-mixed".to_string(), "v2-crc-attrs".to_string(), "v4-hetbet".to_string()];
+    // quick also has the user-data archive (header scan, archive at a non-zero offset) and the codec archive
+    // (ADPCM / sparse / lzma payloads: token-stream items)
+    let mut v = vec![
+        "v1-zlib-mixed".to_string(),
+        "v2-crc-attrs".to_string(),
+        "v4-hetbet".to_string(),
+        "v1-userdata".to_string(),
+        "v1-codecs".to_string(),
+    ];
     if thorough {
-        for n in ["v3-hetbet", "v3-asbuilt", "v1-bzip2", "v1-codecs", "v1-userdata", "v4-cmptables", "v1-pkware-asbuilt"] {
+        for n in ["v3-hetbet", "v3-asbuilt", "v1-bzip2", "v4-cmptables", "v1-pkware-asbuilt"] {
             v.push(n.to_string());
         }
     }
@@ -527,6 +552,9 @@ pub fn build(name: &str) -> Seed {
                 continue;
             }
             s.field_ex(b.pos, 1, "index", format!("file[{nm}].method"), b.pos + 1, 1, enc);
+            if key == 0 {
+                adpcm_site(&mut s, format!("file[{nm}]"), b.pos, b.pos + b.csize);
+            }
             if b.flags & FLAG_SECTOR_CRC != 0 && b.pos + b.csize + 4 <= len {
                 s.field_ex(b.pos + b.csize, 4, "index", format!("file[{nm}].crc"), b.pos + b.csize + 4, 1, None);
             }
@@ -560,6 +588,9 @@ pub fn build(name: &str) -> Seed {
                     }
                     let enc = if key != 0 { Some(Enc { start: b.pos + st, len: sl & !3, key: key.wrapping_add(k as u32) }) } else { None };
                     s.field_ex(b.pos + st, 1, "index", format!("file[{nm}].sector[{k}].method"), b.pos + st + 1, 1, enc);
+                    if key == 0 {
+                        adpcm_site(&mut s, format!("file[{nm}].sector[{k}]"), b.pos + st, b.pos + en);
+                    }
                     break;
                 }
             }
